@@ -272,3 +272,7 @@ def run(ctx):
     from .C16 import r16_2
     from ..jsontab import JsonTables
     r16_2(ctx, JsonTables(ctx))
+    # the forward pass walks output_task_list, the backward pass input_task_list: a dependency must be registered on both sides,
+    # whatever kind of iterable it was declared with (C01 R1.5)
+    from .C01 import r1_5
+    r1_5(ctx)
